@@ -50,3 +50,20 @@ def insertBraces (order : List String) (s : String) : String :=
 
 end Legacy
 end Blackbird
+
+namespace Blackbird
+namespace Legacy
+
+variable {K : Type} [Scalar K]
+
+/-- include call site before the repair: the mode map zips the mode SET in its iteration order
+(`setOrder`), and the included program's operations are renamed in place: the possibly-modified
+included program is returned next to the operations appended -/
+def includeCall (setOrder : List Int → List Int) (bb : Program K) (modes : List Int) :
+    Except Err (List (Op K) × Program K) := do
+  let modeMap := (setOrder (dedupInts bb.modes)).zip modes
+  let ops ← bb.ops.mapM fun o => do .ok { o with modes := ← o.modes.mapM (lookupMode modeMap) }
+  .ok (ops, { bb with ops := ops })
+
+end Legacy
+end Blackbird
